@@ -119,6 +119,9 @@ Section Sem.
   (* iterations after which a loop is given up as unspecified *)
   Definition loop_fuel : nat := 3000.
 
+  Definition const_val (t : ty) (z : Z) : val :=
+    match t with TI _ => VI z | TF f => VF (f_of_bits fo f z) end.
+
   Section Expr.
     Variable tys : list ty.
 
@@ -130,6 +133,16 @@ Section Sem.
       | ELit _ z => Ok (VI z)
       | ELitF t b => Ok (VF (f_of_bits fo t b))
       | EVar i | ESVar i => Ok (r i)
+      (* "Top-level declarations using := are compile-time constants. Values are inlined at each
+         reference site" *)
+      | EGlob t z => Ok (const_val t z)
+      (* "Inside function bodies, call other functions using parentheses"; "Optional parameters
+         can have default values (must be trailing)": an omitted trailing argument takes the
+         declared default. Call by value: the callee's parameters are fresh variables. *)
+      | ECall _ t d p q body a b =>
+          bind (eval r a) (fun va =>
+          bind (match b with Some e => eval r e | None => Ok (const_val t d) end) (fun vb =>
+            eval (upd (upd r p va) q vb) body))
       | EParen a => eval r a
       | ENeg a =>
           bind (eval r a) (fun v =>
